@@ -30,7 +30,7 @@ from rustmini import Unsupported
 
 REPO = os.environ.get("VERIF_REPO", "/repo")
 OUT = os.environ.get("VERIF_LOGIC_OUT", os.path.join(HERE, "..", "coq", "Gen", "LogicGen.v"))   # its directory receives <Group>Gen.v
-STATUS = os.path.join(HERE, "..", ".build", "logic_status.json")
+STATUS = os.environ.get("VERIF_LOGIC_STATUS", os.path.join(HERE, "..", ".build", "logic_status.json"))
 
 INTS = {"u8", "u16", "u32", "u64", "u128", "usize", "i8", "i16", "i32", "i64", "isize", "char", "int"}
 WIDTH = {"u8": 8, "u16": 16, "u32": 32, "u64": 64, "usize": 64}
